@@ -575,6 +575,42 @@ static void he_case(uint64_t idx, void *ctx)
     mc_outcome(idx);
 }
 
+/* ------------------------------------------------------------------ positions and counts at the far ends of the 64-bit index type */
+static const long long EXT[] = { 0, 1, -1, 5, -5, 11, -11, 12, -12, 2147483647LL, 2147483648LL, 2147483649LL, -2147483647LL, -2147483648LL, -2147483649LL, 4294967291LL, 4294967296LL, 4294967301LL, -4294967291LL, -4294967296LL, -4294967301LL,
+                                 3298534883339LL, -3298534883339LL, 9223372036854775807LL, -9223372036854775807LL - 1, -9223372036854775807LL, -9223372036854775803LL };
+#define NEXT ((int) (sizeof EXT / sizeof EXT[0]))
+static void ex_desc(uint64_t idx, void *ctx, char *b, size_t n) { (void) ctx; snprintf(b, n, CLS " \"hello\\0world\" (11 bytes): subbuff, splice(\"XY\"), splice_from_ptr(\"XY\",2) with position %lld and count %lld", EXT[idx / NEXT], EXT[idx % NEXT]); }
+static void ex_case(uint64_t idx, void *ctx)
+{
+    long long I = EXT[idx / NEXT], C = EXT[idx % NEXT]; (void) ctx;
+    const unsigned char *text = (const unsigned char *) "hello\0world"; const int n = 11;
+    const char *shape = (I > 2147483647LL || I < -2147483648LL || C > 2147483647LL || C < -2147483648LL) ? "position or count beyond 32 bits" : "position and count within 32 bits";
+    mc_set_shape(shape);
+    __int128 st = I < 0 ? (__int128) I + n : I; int sub_ok = st >= 0 && st < n; __int128 sc = 0;
+    if (sub_ok) { sc = C <= 0 ? (__int128) n - st + C : C; if (sc < 0) sub_ok = 0; else if (sc > n - st) sc = n - st; }
+    __int128 si = st, spc = C; int spl_ok = si >= 0 && si < n;
+    if (spl_ok) { if (spc < 0) spc = si + n + spc; if (spc < 0 || spc > n - si) spl_ok = 0; }
+    { T o = F(new_from_ptr)((spif_byteptr_t) text, 11);
+      T r = F(subbuff)(o, (spif_memidx_t) I, (spif_memidx_t) C);
+      if (sub_ok) { if (!r || (sc && !r->buff) || r->len != (spif_memidx_t) sc || (sc && memcmp(r->buff, text + (int) st, (size_t) sc))) FAIL(CLS "_subbuff", "model:content", shape, "subbuff(%lld,%lld) is not the %d-byte slice at %d", I, C, (int) sc, (int) st); }
+      else if (r) FAIL(CLS "_subbuff", "model:not-refused", shape, "subbuff(%lld,%lld) on 11 bytes must be refused", I, C);
+      if (r) F(del)(r);
+      if (o->len != 11 || memcmp(o->buff, text, 11)) FAIL(CLS "_subbuff", "model:original-changed", shape, "the buffer changed");
+      F(del)(o); }
+    for (int via_ptr = 0; via_ptr < 2; via_ptr++) {
+        T o = F(new_from_ptr)((spif_byteptr_t) text, 11), x = F(new_from_ptr)((spif_byteptr_t) "XY", 2);
+        spif_bool_t r = via_ptr ? F(splice_from_ptr)(o, (spif_memidx_t) I, (spif_memidx_t) C, (spif_byteptr_t) "XY", 2) : F(splice)(o, (spif_memidx_t) I, (spif_memidx_t) C, x);
+        const char *site = via_ptr ? CLS "_splice_from_ptr" : CLS "_splice";
+        unsigned char exp[32]; int el = n;
+        if (spl_ok) { memcpy(exp, text, (size_t) si); memcpy(exp + (int) si, "XY", 2); memcpy(exp + (int) si + 2, text + (int) (si + spc), (size_t) (n - (int) (si + spc))); el = n + 2 - (int) spc; } else memcpy(exp, text, 11);
+        if ((r ? 1 : 0) != spl_ok) FAIL(site, spl_ok ? "model:refused" : "model:not-refused", shape, "splice(%lld,%lld) on 11 bytes returned %d", I, C, (int) r);
+        if (!o->buff || o->len != el || memcmp(o->buff, exp, (size_t) el) || o->size < o->len) FAIL(site, "model:content", shape, "after splice(%lld,%lld) the buffer has %ld bytes, expected %d (or differs)", I, C, (long) o->len, el);
+        F(del)(x); F(del)(o);
+    }
+    mc_nontrivial();
+    mc_outcome((uint64_t) sub_ok * 2 + (uint64_t) spl_ok + idx * 4);
+}
+
 /* ------------------------------------------------------------------ long buffers: every operation once on a buffer of n bytes, n around 127/255/256/4096/65536 */
 static const int LT[] = { 126, 127, 128, 254, 255, 256, 257, 4094, 4095, 4096, 4097, 32767, 32768, 65534, 65535, 65536, 65537 };
 #define NLT ((int) (sizeof LT / sizeof LT[0]))
@@ -684,6 +720,7 @@ int main(int argc, char **argv)
     g_dev = (int) mc_arg_int("dev", 2);
     if (!mc_arg("only", NULL) || !strcmp(mc_arg("only", ""), "ctor"))
         mc_e2_level(CLS "_stream_ctor", g_k * 10 + g_dev, (uint64_t) NSRC * NLENS, sc_case, sc_desc, NULL);
+    if (!mc_arg("only", NULL)) mc_e2_level(CLS "_extreme_index", 64, (uint64_t) NEXT * NEXT, ex_case, ex_desc, NULL);
     if (!mc_arg("only", NULL)) mc_e2_level(CLS "_long_buffer", 65537, (uint64_t) NLT * NLO, lt_case, lt_desc, NULL);
     if (!mc_arg("only", NULL)) { mc_e2_level(CLS "_stream_history", 1, 30, sh_case, sh_desc, NULL); mc_e2_level(CLS "_fd_hard_error", 1, NHE, he_case, he_desc, NULL); }
     if (!mc_arg("only", NULL)) { int maxn = (int) mc_arg_int("spmax", mc_thorough() ? 9000 : 700); mc_e2_level(CLS "_sprintf_len", maxn, (uint64_t) (maxn + 1) * 3, sp_case, sp_desc, NULL); }
